@@ -322,7 +322,8 @@ inline ChildResult run_child(const std::function<void(FILE *)> &fn, int timeout_
     while ((n = read(pe[0], buf, sizeof buf)) > 0)
     {
         r.err.append(buf, n);
-        if (r.err.size() > 8192) r.err.erase(0, r.err.size() - 4096);
+        // keep the head (sanitizer headline) and the tail (assert text, SUMMARY line)
+        if (r.err.size() > 65536) r.err = r.err.substr(0, 16384) + "\n[...]\n" + r.err.substr(r.err.size() - 16384);
     }
     close(po[0]);
     close(pe[0]);
@@ -384,7 +385,17 @@ inline void fork_pool(long n, int jobs, const std::function<void(long)> &body)
             {
                 if (!open_[j] || !(pf[j].revents & (POLLIN | POLLHUP | POLLERR))) continue;
                 ssize_t k = read(fds[j], buf, sizeof buf);
-                if (k > 0) acc[j].append(buf, k);
+                if (k > 0)
+                {
+                    acc[j].append(buf, k);
+                    size_t nl = acc[j].rfind('\n');
+                    if (nl != std::string::npos)
+                    {
+                        fwrite(acc[j].data(), 1, nl + 1, stdout); // whole lines only: records of different workers never mix
+                        fflush(stdout);
+                        acc[j].erase(0, nl + 1);
+                    }
+                }
                 else
                 {
                     close(fds[j]);
@@ -427,16 +438,24 @@ inline void isolated_for(long n, int jobs, long chunk, const std::function<void(
             fflush(stdout);
         }, timeout_s);
     };
+    long crashes = 0; // per worker (each worker has its own copy after fork)
     fork_pool(nchunks, jobs, [&](long c) {
+        if (crashes > 24)
+        {
+            // the code under test crashes on many cases: every one found so far is reported; do not spend
+            // the whole time budget attributing more of them
+            if (crashes == 25) { printf("INFO early-stop: worker skips its remaining cases after 25 crashing cases\n"); rep().stat("early_stop_workers"); crashes++; }
+            return;
+        }
         long lo = c * chunk, hi = std::min(n, lo + chunk);
         ChildResult r = run_range(lo, hi);
         if (r.kind == 0) { fwrite(r.out.data(), 1, r.out.size(), stdout); return; }
-        if (hi - lo == 1) { on_crash(lo, r); return; }
-        for (long i = lo; i < hi; i++)
+        if (hi - lo == 1) { crashes++; on_crash(lo, r); return; }
+        for (long i = lo; i < hi && crashes <= 24; i++)
         {
             ChildResult r1 = run_range(i, i + 1);
             if (r1.kind == 0) fwrite(r1.out.data(), 1, r1.out.size(), stdout);
-            else on_crash(i, r1);
+            else { crashes++; on_crash(i, r1); }
         }
     });
 }
@@ -456,6 +475,45 @@ inline std::string crash_sig(const ChildResult &r)
 // last non-empty line of stderr, sanitised (assert text etc.)
 inline std::string err_tail(const ChildResult &r)
 {
+    // a sanitizer SUMMARY line names the error kind and the source location: prefer it
+    size_t sp = r.err.find("SUMMARY: ");
+    if (sp != std::string::npos)
+    {
+        size_t e = r.err.find('\n', sp);
+        std::string t = r.err.substr(sp, e == std::string::npos ? std::string::npos : e - sp);
+        for (char &c : t) if (c == '\t') c = ' ';
+        if (t.size() > 400) t.resize(400);
+        // first stack frame inside the library sources (the SUMMARY may point into the sanitizer runtime)
+        size_t pos = 0;
+        while ((pos = r.err.find("/src/", pos)) != std::string::npos)
+        {
+            size_t ls = r.err.rfind('\n', pos);
+            ls = (ls == std::string::npos) ? 0 : ls + 1;
+            size_t le = r.err.find('\n', pos);
+            std::string line = r.err.substr(ls, le == std::string::npos ? std::string::npos : le - ls);
+            if (line.find("libsanitizer") == std::string::npos && line.find("    #") != std::string::npos)
+            {
+                size_t fs = line.rfind('/');
+                std::string loc = line.substr(fs + 1);
+                size_t sp2 = loc.find(' ');
+                if (sp2 != std::string::npos) loc.resize(sp2);
+                t += " @ " + loc;
+                break;
+            }
+            pos = (le == std::string::npos) ? r.err.size() : le;
+        }
+        return t;
+    }
+    size_t up = r.err.find("runtime error:");
+    if (up != std::string::npos)
+    {
+        size_t b = r.err.rfind('\n', up);
+        b = (b == std::string::npos) ? 0 : b + 1;
+        size_t e = r.err.find('\n', up);
+        std::string t = r.err.substr(b, e == std::string::npos ? std::string::npos : e - b);
+        if (t.size() > 400) t.resize(400);
+        return t;
+    }
     std::string e = r.err;
     while (!e.empty() && (e.back() == '\n' || e.back() == ' ')) e.pop_back();
     size_t i = e.rfind('\n');
